@@ -488,9 +488,9 @@ func FuzzPipeline(f *testing.F) {
 }
 
 func TestC08(t *testing.T) {
-	V.Rule("unit: sequences of 1-6 inputs (a fresh proxy every 40 sequences) pushed through the synchronous pipeline decode -> learn -> stamp -> register -> consume Route -> pin -> route -> relay (UDP-like and TCP-like arrival, requests and responses): structurally valid generated messages with 1-3 hostile fields (absurd / negative / non-numeric Content-Length, bracket-only / empty / huge Via hosts, hostile Route / From / To / CSeq / start lines, missing mandatory or duplicated singleton headers, every decoded number (Content-Length, CSeq, Expires, Max-Forwards, status, URI / Via / Route ports, rport) at every integer width boundary 2^k-2..2^k+1 for k in 7..64 in both signs - enumerated completely -, thousands of headers / Via entries / parameters, hostile tags, odd Expires), truncations and random byte strings; oracle: no panic, returns within 15 s, TotalAlloc growth per input <= 512*len + 1 MiB (decoding is allowed a large constant factor, not an allocation that ignores how many bytes arrived). lab: the same inputs plus random and oversized bytes against real UDP and TCP listeners; after every batch a sentinel request must still be relayed, and so must 2-6 small ordinary requests sent back to back (each once, intact), a TCP connection that carried undecodable bytes must have been closed, new connections must be served. The native coverage-guided target FuzzPipeline runs in the thorough tier. non-trivial = input that decodes (reaches routing) and contains >= 1 hostile field; distinct by input bytes")
+	V.Rule("unit: sequences of 1-6 inputs (a fresh proxy every 40 sequences) pushed through the synchronous pipeline decode -> learn -> stamp -> register -> consume Route -> pin -> route -> relay (UDP-like and TCP-like arrival, requests and responses): structurally valid generated messages with 1-3 hostile fields (absurd / negative / non-numeric Content-Length, bracket-only / empty / huge Via hosts, hostile Route / From / To / CSeq / start lines, missing mandatory or duplicated singleton headers, every decoded number (Content-Length, CSeq, Expires, Max-Forwards, status, URI / Via / Route ports, rport) at every integer width boundary 2^k-2..2^k+1 for k in 7..64 in both signs - enumerated completely -, thousands of headers / Via entries / parameters, hostile tags, odd Expires), truncations and random byte strings; oracle: no panic, returns within 15 s, TotalAlloc growth per input <= 512*len + 1 MiB (decoding is allowed a large constant factor, not an allocation that ignores how many bytes arrived). lab: the same inputs plus random and oversized bytes against real UDP and TCP listeners; after every batch a sentinel request must still be relayed, and so must 2-6 small ordinary requests sent back to back (each once, intact), a TCP connection that carried undecodable bytes must have been closed, so must one whose peer stops in the middle of a message (any cut after the first byte) and shuts its sending side down, new connections must be served. The native coverage-guided target FuzzPipeline runs in the thorough tier. non-trivial = input that decodes (reaches routing) and contains >= 1 hostile field; distinct by input bytes")
 	V.Assume("egress hygiene: when the product itself computes a non-UDP next hop outside 127/8 for an input, the harness does not let that input reach the relay step (counted as neutralised); UDP sends cannot block")
-	V.Require("bin: process alive and RSS bounded after hostile batch", "decoded with hostile field", "rejected by the decoder", "tcp-like arrival", "udp-like arrival", "response", "lab: sentinel relayed after hostile batch", "lab: back-to-back ordinary requests all relayed after hostile batch", "lab: garbage TCP connection closed")
+	V.Require("bin: process alive and RSS bounded after hostile batch", "decoded with hostile field", "rejected by the decoder", "tcp-like arrival", "udp-like arrival", "response", "lab: sentinel relayed after hostile batch", "lab: back-to-back ordinary requests all relayed after hostile batch", "lab: garbage TCP connection closed", "lab: connection ending in the middle of a message closed")
 
 	// saved hostile inputs, each as UDP-like and TCP-like arrival, with and without received-support
 	V.Regress(t, func(c regressCase) string {
@@ -775,6 +775,28 @@ func TestC08(t *testing.T) {
 					failf(rt, "after the batch %v the proxy no longer relays ordinary traffic properly: of %d small requests sent back to back %d came out intact (each expected exactly once): %v\n%s", batch, nb, len(got), err, labDescribe(rs))
 				}
 				V.Class("lab: back-to-back ordinary requests all relayed after hostile batch")
+			}
+			// A peer that stops in the middle of a message and shuts its sending side
+			// down has delivered undecodable input: the proxy closes the connection
+			// (a connection it merely stops reading stays open for good - descriptors
+			// run out and the listener dies).
+			if rapid.IntRange(0, 3).Draw(rt, "a connection ending in the middle of a message") == 0 {
+				tl := s.in.cfg.Listens[rapid.IntRange(0, 1).Draw(rt, "entry of the truncated connection")]
+				full := fmt.Sprintf("INVITE sip:u@svc.test SIP/2.0\r\nVia: SIP/2.0/TCP %s:5060;branch=z9hG4bK%s\r\nFrom: <sip:a@b>;tag=1\r\nTo: <sip:c@nomatch.example>\r\nCall-ID: %s\r\nCSeq: 1 INVITE\r\nContent-Length: 10\r\n\r\n0123456789", s.ip(12), s.nextID("trunc"), s.nextID("trunc"))
+				cut := rapid.IntRange(1, len(full)-1).Draw(rt, "bytes sent before the peer shuts down") // (at least one byte: an unfinished message)
+				tc, err := s.in.hub.dialTCP("truncating", s.ip(12), tl.Addr, tl.TCPPort)
+				if err != nil {
+					failf(rt, "the TCP listener no longer accepts connections after %v: %v", batch, err)
+				}
+				tc.send([]byte(full[:cut]))
+				if c, ok := tc.conn.(*net.TCPConn); ok {
+					c.CloseWrite()
+				}
+				if !patientUntil(20*time.Second, 200*time.Microsecond, tc.isDead) {
+					failf(rt, "a TCP peer sent the first %d bytes of a message and shut its sending side down; the proxy did not close the connection within 20 s (undecodable input: the connection carrying it is to be closed)", cut)
+				}
+				tc.close()
+				V.Class("lab: connection ending in the middle of a message closed")
 			}
 			if tcpGarbage {
 				// a connection that carried undecodable bytes is closed by the proxy
